@@ -1,5 +1,5 @@
 (* Props/C20.v -- refine() keeps the input geometry and honours its documented contract.
-   The refinement loop is not modelled.  Decided per call on the implementation's before/after states (Check/Run.v check_refine,
+   The refinement loop is modelled in Refine/RefineModel.v (theorems in Props/C20b.v; tie: index-exact correspondence).  Decided per call on the implementation's before/after states (Check/Run.v check_refine,
    Refine/Outer.v): the vertex prefix is bit-identical, the vertex budget is respected, original constraints are covered by walks of
    constraint edges through Steiner points (or kept unchanged with keep_constraint_edges), excluded_faces equals the parity specification,
    the result is a well-formed DCEL.  Angle / area guarantees are not decided.
@@ -13,6 +13,7 @@
 From Coq Require Import ZArith List Bool Arith.
 From SpadeV Require Import Geom.Pred Obs.State Obs.Spec Obs.SpecProp Obs.Query Obs.QueryProp Obs.QueryProofs Refine.Outer Check.Codes Check.Run
   Cdt.SplitProp Cdt.SplitProofs Refine.OuterProp Refine.OuterProofs.
+From SpadeV Require Props.C20b.        (* continuation: theorems about the executable models of refine *)
 Import ListNotations.
 
 Theorem C20_excluded_list_decision : forall expected n got, same_set expected n got = true <-> SameSet expected n got.
